@@ -44,4 +44,8 @@ class Prop(WalletProp):
         for iv, acc, t in ((("1", "3"), "2", False), (("4", "4"), None, True)):
             cases.append({"kind": "ParCli", "file": True, "v": {"cmd": "from-mnemonic", "secret": mn, "password": "file pw " + iv[0], "interval": iv,
                                                                 "account": acc, "testnet": t}})
+        # ... and when writing the file fails after the arguments were accepted
+        for kind in ("trailing-slash", "dangling-symlink"):
+            cases.append({"kind": "ParCli", "file": kind, "v": {"cmd": "from-mnemonic", "secret": mn, "password": "file pw " + kind, "interval": ("0", "2"),
+                                                                "account": None, "testnet": kind == "dangling-symlink"}})
         return cases
